@@ -3,6 +3,7 @@ use qcore::serde_json::{self, json};
 
 fn main() {
     std::panic::set_hook(Box::new(|_| {}));
+    qcore::drive::start_watchdog(120.0);
     let args: Vec<String> = std::env::args().collect();
     let get = |k: &str| -> Option<String> {
         args.iter().position(|a| a == k).and_then(|i| args.get(i + 1).cloned())
